@@ -721,6 +721,7 @@ static bool _binson_parser_init(binson_parser *parser,
     parser->buffer_size = buffer_size;
     parser->error_flags = BINSON_ERROR_NONE;
     parser->type        = type;
+    parser->depth       = 0;
 
     return binson_parser_reset(parser);
 }
